@@ -74,6 +74,25 @@ fn spell_escaped(name: &str, r: &mut Rng) -> String {
     out
 }
 
+/// Lexical normalisation of an absolute path ("." and ".." resolved without touching the disk).
+fn lexical(p: &Path) -> Option<std::path::PathBuf> {
+    let mut out = std::path::PathBuf::new();
+    for c in p.components() {
+        match c {
+            std::path::Component::RootDir => out.push("/"),
+            std::path::Component::CurDir => {}
+            std::path::Component::ParentDir => {
+                if !out.pop() {
+                    return None;
+                }
+            }
+            std::path::Component::Normal(x) => out.push(x),
+            std::path::Component::Prefix(_) => return None,
+        }
+    }
+    Some(out)
+}
+
 fn reserved(name: &str) -> bool {
     let stem = name;
     let versioned = |base: &str| stem.strip_suffix(base).is_some_and(|p| p.strip_suffix('.').is_some_and(|d| !d.is_empty() && d.bytes().all(|c| c.is_ascii_digit())));
@@ -137,7 +156,7 @@ impl Check for C16 {
         "C16"
     }
     fn rule(&self) -> String {
-        "delegated role names over {/ \\ . % ? # : space \\x01 é a 1}: enumerated to length 4 (thorough: all 22620; quick: every 2nd), a dictionary of 22 hostile names, and seeded names to length 64; 1..3 such roles per repository, a quarter of them with a twin that spells one of the names with percent escapes, both consistent-snapshot settings; each run loads (with datastore), caches metadata, and builds + writes the same roles with the real editor; non-trivial = a name contains a path- or URL-significant character and its file was requested/written; distinct = distinct canonical trace".into()
+        "delegated role names over {/ \\ . % ? # : space \\x01 é a 1}: enumerated to length 4 (thorough: all 22620; quick: every 2nd), a dictionary of 22 hostile names, and seeded names to length 64; 1..3 such roles per repository, a quarter of them with a twin that spells one of the names with percent escapes, both consistent-snapshot settings; each run loads (with datastore), caches metadata, loads the same repository again as a local file repository through tough's FilesystemTransport (once complete, once with one role's plain entry removed and copies placed where decoded spellings of its name point), and builds + writes the same roles with the real editor; non-trivial = a name contains a path- or URL-significant character and its file was requested/written; distinct = distinct canonical trace".into()
     }
     fn assumptions(&self) -> Vec<String> {
         vec![
@@ -146,7 +165,7 @@ impl Check for C16 {
         ]
     }
     fn components(&self) -> Value {
-        json!({"real": ["tough load (encode_filename, URL join, datastore writes)", "Repository::cache_metadata", "RepositoryEditor::delegate_role / sign", "SignedRepository::write", "real directories in a scratch sandbox"], "stub": ["transport (SimTransport)", "foreign publisher (client side)"]})
+        json!({"real": ["tough load (encode_filename, URL join, datastore writes)", "Repository::cache_metadata", "FilesystemTransport (file URL to path)", "RepositoryEditor::delegate_role / sign", "SignedRepository::write", "real directories in a scratch sandbox"], "stub": ["transport (SimTransport)", "foreign publisher (client side)"]})
     }
     fn enumerated(&self, tier: Tier) -> u64 {
         DICTIONARY.len() as u64
@@ -247,7 +266,7 @@ impl Check for C16 {
         vec!["name_with_slash", "name_with_backslash", "name_dot_or_dotdot", "name_with_percent", "name_with_query_or_fragment", "name_with_control_or_non_ascii", "name_ending_in_json"]
     }
     fn required_probes(&self, _t: Tier) -> Vec<&'static str> {
-        vec!["client_loaded", "metadata_cached", "editor_wrote", "distinct_names_distinct_files"]
+        vec!["client_loaded", "metadata_cached", "editor_wrote", "distinct_names_distinct_files", "file_repository_loaded", "decoy_outside_plain_entry_ignored"]
     }
     fn run(&self, sc: &Sc) -> Outcome {
         let mut o = Outcome::new();
@@ -449,6 +468,80 @@ impl Check for C16 {
                             format!("clean repository with role names {:?} failed to load: {}", sc.names, variant(e)),
                         );
                         return o;
+                    }
+                }
+            }
+
+            // =========== client side again: a local file repository read with tough's own
+            // FilesystemTransport (a request is a file that gets opened) ===========
+            if !any_reserved && loaded.is_ok() {
+                let fmeta = sbox.join("file-repo").join("metadata");
+                let ftargets = sbox.join("file-repo").join("targets");
+                std::fs::create_dir_all(&fmeta).unwrap();
+                std::fs::create_dir_all(&ftargets).unwrap();
+                let mut rel_of_role: Vec<Option<String>> = vec![None; role_docs.len()];
+                let mut writable = true;
+                for (rel, bytes) in &built.files.meta {
+                    if rel.contains('/') || std::fs::write(fmeta.join(rel), bytes).is_err() {
+                        writable = false;
+                    }
+                    if let Some(i) = role_docs.iter().position(|d| d == bytes) {
+                        rel_of_role[i] = Some(rel.clone());
+                    }
+                }
+                if writable && rel_of_role.iter().all(Option::is_some) {
+                    let murl = url::Url::from_directory_path(&fmeta).unwrap();
+                    let turl = url::Url::from_directory_path(&ftargets).unwrap();
+                    let shipped = built.root.bytes();
+                    let (m2, t2, s2) = (murl.clone(), turl.clone(), shipped.clone());
+                    let positive = block_on(async move { tough::RepositoryLoader::new(&s2, m2, t2).transport(tough::FilesystemTransport).load().await.map(|_| ()) });
+                    o.ev(format!("file repository load={:?}", positive.as_ref().map_err(variant)));
+                    match positive {
+                        Err(e) => o.violate(
+                            format!("clean-file-repository-refused-because-of-role-names:{}", variant(&e)),
+                            format!("a clean local repository with role names {:?}, each role file a plain entry of the metadata directory, failed to load: {}", sc.names, variant(&e)),
+                        ),
+                        Ok(()) => {
+                            o.probe("file_repository_loaded");
+                            // now one role's plain entry is absent, and copies of it sit wherever a
+                            // decoded or half-decoded form of the name would point
+                            let victim = (sc.world as usize) % role_docs.len();
+                            let rel = rel_of_role[victim].clone().unwrap();
+                            let proper = fmeta.join(&rel);
+                            std::fs::remove_file(&proper).unwrap();
+                            let decoded = crate::transport::pct_decode(&rel);
+                            let mut candidates: Vec<std::path::PathBuf> = vec![fmeta.join(&decoded)];
+                            if let Some((dir, _)) = decoded.rsplit_once('/') {
+                                candidates.push(fmeta.join(dir).join(&rel));
+                            }
+                            let prefix = if sc.consistent { "1." } else { "" };
+                            candidates.push(fmeta.join(format!("{prefix}{}.json", sc.names[victim])));
+                            let mut decoys = 0;
+                            for c in candidates {
+                                let Some(n) = lexical(&c) else { continue };
+                                if !n.starts_with(&sbox) || n == proper || n.exists() {
+                                    continue;
+                                }
+                                if let Some(parent) = n.parent() {
+                                    if std::fs::create_dir_all(parent).is_err() {
+                                        continue;
+                                    }
+                                }
+                                if std::fs::write(&n, &role_docs[victim]).is_ok() {
+                                    decoys += 1;
+                                }
+                            }
+                            let negative = block_on(async move { tough::RepositoryLoader::new(&shipped, murl, turl).transport(tough::FilesystemTransport).load().await.map(|_| ()) });
+                            o.ev(format!("file repository without the plain entry of role {victim} (decoys placed: {}) load={:?}", decoys > 0, negative.as_ref().map_err(variant)));
+                            if negative.is_ok() {
+                                o.violate(
+                                    "role-metadata-read-from-a-non-plain-entry",
+                                    format!("the plain entry {rel:?} of role {:?} is absent from the metadata directory, yet the repository loaded: the role's metadata was taken from another path", sc.names[victim]),
+                                );
+                            } else if decoys > 0 {
+                                o.probe("decoy_outside_plain_entry_ignored");
+                            }
+                        }
                     }
                 }
             }
